@@ -99,9 +99,13 @@ Definition dep (v : var) : Z := snd (orig v).
 Definition arr (v : var) : Z := snd (dest v).
 
 (* ---------- build_objective ---------- *)
+(* (`let`s only share work under vm_compute; `vs` is self.var_mapping, `nth_error vs k` is
+   get_var_tuple_index I k) *)
 Definition objective (I : inst) : list Z :=
-  map (fun k => match get_var_tuple_index I k with
-                | Some v => acost (arc_at (ig I) (onode v) (dnode v))
+  let vs := vars I in
+  let g := ig I in
+  map (fun k => match nth_error vs k with
+                | Some v => acost (arc_at g (onode v) (dnode v))
                 | None => 0    (* unreachable: num_variables = length var_mapping *)
                 end) (seq 0 (num_variables I)).
 
@@ -144,7 +148,8 @@ Definition visit_trips_of (row_index : nat) (col : nat) (v : var) : list trip :=
   if Nat.eqb (dnode v) 0 then [] else [(1, (row_index + (dnode v - 1))%nat, col)].
 
 Definition over_cols (I : inst) (f : nat -> var -> list trip) : list trip :=
-  flat_map (fun col => match get_var_tuple_index I col with
+  let vs := vars I in
+  flat_map (fun col => match nth_error vs col with     (* get_var_tuple_index(col) *)
                        | Some v => f col v
                        | None => []   (* unreachable, see header *)
                        end) (seq 0 (num_variables I)).
@@ -170,15 +175,17 @@ Definition entry (T : list trip) (r c : nat) : Z :=
 Definition A_shape (I : inst) : nat * nat := (length (rhs I), num_variables I).
 
 Definition A_dense (I : inst) : list (list Z) :=
-  map (fun r => map (fun c => entry (triplets I) r c) (seq 0 (snd (A_shape I))))
-      (seq 0 (fst (A_shape I))).
+  let T := triplets I in
+  let sh := A_shape I in
+  map (fun r => map (fun c => entry T r c) (seq 0 (snd sh))) (seq 0 (fst sh)).
 
 (* u . x over the first n positions *)
 Definition dotn (n : nat) (u x : list Z) : Z :=
   sumz (map (fun k => nth k u 0 * nth k x 0) (seq 0 n)).
 
 Definition Ax (I : inst) (x : list Z) : list Z :=
-  map (fun row => dotn (num_variables I) row x) (A_dense I).
+  let n := num_variables I in
+  map (fun row => dotn n row x) (A_dense I).
 
 Definition obj_value (I : inst) (x : list Z) : Z := dotn (num_variables I) (objective I) x.
 
@@ -270,7 +277,7 @@ Definition all_some {A} (l : list (option A)) : option (list A) :=
              (Some []) l.
 
 Definition get_routes (I : inst) (x : list Z) : result (list route) :=
-  match all_some (map (get_var_tuple_index I) (nonzero x)) with
+  match (let vs := vars I in all_some (map (nth_error vs) (nonzero x))) with
   | None => Err ValueError           (* np.array of tuples and None: inhomogeneous shape *)
   | Some [] => Err TypeError         (* np.lexsort of an empty key sequence *)
   | Some sel =>
@@ -309,8 +316,10 @@ Definition check_c18case (c : c18case) : list nat :=
       let I := mkInst g grid in
       chk 1 (list_eqb var_eqb (vars I) ivars) ++
       chk 2 (Nat.eqb (num_variables I) inum) ++
-      chk 3 (list_eqb onat_eqb (map (get_var_index I) (tuple_space (length (nodes g)) times)) iidx) ++
-      chk 4 (list_eqb ovar_eqb (map (get_var_tuple_index I) (seq 0 (inum + 3))) itup)
+      (* get_var_index I v = find_index var_eqb v (vars I), get_var_tuple_index I k = nth_error (vars I) k *)
+      let vs := vars I in
+      chk 3 (list_eqb onat_eqb (map (fun v => find_index var_eqb v vs) (tuple_space (length (nodes g)) times)) iidx) ++
+      chk 4 (list_eqb ovar_eqb (map (nth_error vs) (seq 0 (inum + 3))) itup)
   end.
 
 (* C05: graph, grid, dense A, b, c, shape of A, constraint names, get_routes on given vectors *)
